@@ -765,6 +765,264 @@ def ordered_alternatives(pattern):
     return out, fl
 
 
+
+def exponential_ambiguity(pattern, max_scc=1500):
+    """Exponential degree of ambiguity of the pattern's position automaton: a position p with two different paths p ->* p
+    spelling the same word (then a backtracking matcher that fails after the loop tries 2^k splits of k repetitions).
+    Returns None, or (word_to_p, pump_word, position description).  Assertions are treated as empty (they can only remove
+    paths, so a report is a candidate the caller states as such); epsilon-ambiguity (nested nullable stars) is not counted."""
+    tree, fl, _notes = parse(pattern)
+    b = Builder(fl)
+    a = b.n.new()
+    e = b.seq(list(tree), a, fl)
+    n = b.n
+    succ, final = {}, {}
+    work, seen = [a], {a}
+    while work:
+        p = work.pop()
+        cl = closure_plain(n, {p})
+        final[p] = e in cl
+        out = []
+        for s in cl:
+            for m, t in n.tr[s]:
+                if m:
+                    out.append((m, t))
+                    if t not in seen:
+                        seen.add(t)
+                        work.append(t)
+        succ[p] = out
+    # co-reachable
+    rev = {}
+    for p, out in succ.items():
+        for _m, t in out:
+            rev.setdefault(t, set()).add(p)
+    live = {p for p in succ if final[p]}
+    work = list(live)
+    while work:
+        t = work.pop()
+        for p in rev.get(t, ()):
+            if p not in live:
+                live.add(p)
+                work.append(p)
+    succ = {p: [(m, t) for m, t in out if t in live] for p, out in succ.items() if p in live}
+    if a not in succ:
+        return None
+    for comp in _sccs(list(succ), lambda p: [t for _m, t in succ[p]]):
+        S = set(comp)
+        if len(S) == 1 and not any(t in S for _m, t in succ[comp[0]]):
+            continue
+        if len(S) > max_scc:
+            raise RxError(f"loop of {len(S)} positions: too large for the pair construction")
+
+        def psucc(pq, S=S):
+            p, q = pq
+            out = []
+            for m1, t1 in succ[p]:
+                if t1 in S:
+                    for m2, t2 in succ[q]:
+                        if t2 in S and m1 & m2:
+                            out.append((t1, t2) if t1 <= t2 else (t2, t1))
+            return out
+        # unordered pairs (p <= q); distinct transitions to the SAME target also count as two paths
+        dup = None
+        for p in S:
+            tg = {}
+            for m, t in succ[p]:
+                if t in S:
+                    for m0 in tg.get(t, ()):
+                        if m0 & m:
+                            dup = (p, t, m0 & m)
+                    tg.setdefault(t, []).append(m)
+        if dup is not None:
+            p, t, m = dup
+            return (_word_to(succ, a, p), bytes([_lowest(m)]) + (_word_between(succ, t, p, S) or b""), f"position {p}")
+        nodes = set()
+        work = [(p, p) for p in S]
+        nodes.update(work)
+        while work:
+            x = work.pop()
+            for y in psucc(x):
+                if y not in nodes:
+                    nodes.add(y)
+                    work.append(y)
+        for pc in _sccs(list(nodes), psucc):
+            if any(p == q for p, q in pc) and any(p != q for p, q in pc):
+                d = next(p for p, q in pc if p == q)
+                pcs = set(pc)
+                # pump word: a cycle (d,d) -> off-diagonal -> (d,d) inside the component
+                off = next((p, q) for p, q in pc if p != q)
+                w1 = _pair_word(succ, (d, d), off, pcs)
+                w2 = _pair_word(succ, off, (d, d), pcs)
+                return (_word_to(succ, a, d), (w1 or b"") + (w2 or b""), f"position {d}")
+    return None
+
+
+def _lowest(m):
+    pref = [c for c in b"aA0 " if m >> c & 1]
+    if pref:
+        return pref[0]
+    return (m & -m).bit_length() - 1
+
+
+def _word_to(succ, a, target):
+    prev = {a: None}
+    work = [a]
+    while work:
+        nxt = []
+        for p in work:
+            if p == target:
+                out = []
+                while prev[p] is not None:
+                    p, c = prev[p]
+                    out.append(c)
+                return bytes(reversed(out))
+            for m, t in succ[p]:
+                if t not in prev:
+                    prev[t] = (p, _lowest(m))
+                    nxt.append(t)
+        work = nxt
+    return b""
+
+
+def _word_between(succ, s, t, S):
+    prev = {s: None}
+    work = [s]
+    while work:
+        nxt = []
+        for p in work:
+            if p == t:
+                out = []
+                while prev[p] is not None:
+                    p, c = prev[p]
+                    out.append(c)
+                return bytes(reversed(out))
+            for m, q in succ[p]:
+                if q in S and q not in prev:
+                    prev[q] = (p, _lowest(m))
+                    nxt.append(q)
+        work = nxt
+    return None
+
+
+def _pair_word(succ, src, dst, allowed):
+    def norm(p, q):
+        return (p, q) if p <= q else (q, p)
+    prev = {src: None}
+    work = [src]
+    first = True
+    while work:
+        nxt = []
+        for x in work:
+            if x == dst and not first:
+                out = []
+                while prev[x] is not None:
+                    x, c = prev[x]
+                    out.append(c)
+                return bytes(reversed(out))
+            p, q = x
+            for m1, t1 in succ[p]:
+                for m2, t2 in succ[q]:
+                    if m1 & m2:
+                        y = norm(t1, t2)
+                        if y in allowed and (y not in prev or (y == dst and y == src and first)):
+                            if y not in prev:
+                                prev[y] = (x, _lowest(m1 & m2))
+                                nxt.append(y)
+        first = False
+        work = nxt
+    return None
+
+
+def _sccs(nodes, succ_fn):
+    """Tarjan, iterative; returns the list of components (lists of nodes)."""
+    index, low, on, stack, out = {}, {}, set(), [], []
+    counter = [0]
+    for root in nodes:
+        if root in index:
+            continue
+        work = [(root, iter(succ_fn(root)))]
+        index[root] = low[root] = counter[0]
+        counter[0] += 1
+        stack.append(root)
+        on.add(root)
+        while work:
+            v, it = work[-1]
+            adv = False
+            for w in it:
+                if w not in index:
+                    index[w] = low[w] = counter[0]
+                    counter[0] += 1
+                    stack.append(w)
+                    on.add(w)
+                    work.append((w, iter(succ_fn(w))))
+                    adv = True
+                    break
+                if w in on:
+                    low[v] = min(low[v], index[w])
+            if adv:
+                continue
+            work.pop()
+            if work:
+                u = work[-1][0]
+                low[u] = min(low[u], low[v])
+            if low[v] == index[v]:
+                comp = []
+                while True:
+                    w = stack.pop()
+                    on.discard(w)
+                    comp.append(w)
+                    if w == v:
+                        break
+                out.append(comp)
+    return out
+
+
+def overlapping_alternatives(pattern, big=32):
+    """Alternations nested in an unbounded (or >= `big` times) repeat whose alternatives are not pairwise disjoint: the same
+    text of one iteration is matched in two ways that start and end at the same place, so k repetitions have 2^k parses
+    between the same iteration boundaries.  [(ordinal of the alternation, i, j, witness word)].  The stdlib parser has already
+    factored common prefixes out of the alternatives; pairs involving an alternative with an assertion are not judged."""
+    tree, fl, _notes = parse(pattern)
+    out = []
+    ordinal = [0]
+    rep = (sc.MAX_REPEAT, sc.MIN_REPEAT, getattr(sc, "POSSESSIVE_REPEAT", None))
+
+    def walk(items, fl, in_loop):
+        for op, av in items:
+            if op is sc.BRANCH:
+                alts = [list(a) for a in av[1]]
+                ordinal[0] += 1
+                k = ordinal[0]
+                if in_loop:
+                    ds = []
+                    for a in alts:
+                        try:
+                            c = compile_tree(a, fl)
+                            ds.append(c.dfa if c.exact else None)
+                        except RxError:
+                            ds.append(None)
+                    for i in range(len(ds)):
+                        for j in range(i + 1, len(ds)):
+                            if ds[i] is None or ds[j] is None:
+                                continue
+                            ok, w = included(ds[i], complement(ds[j]), witness=True)
+                            if not ok:
+                                out.append((k, i, j, w))
+                for a in alts:
+                    walk(a, fl, in_loop)
+            elif op is sc.SUBPATTERN:
+                _g, add, dele, sub = av
+                walk(list(sub), (fl | add) & ~dele, in_loop)
+            elif op in rep and op is not None:
+                _lo, hi, sub = av
+                walk(list(sub), fl, in_loop or hi is sc.MAXREPEAT or hi >= big)
+            elif op in (sc.ASSERT, sc.ASSERT_NOT):
+                walk(list(av[1]), fl, in_loop)
+            elif op is getattr(sc, "ATOMIC_GROUP", None) and op is not None:
+                walk(list(av), fl, in_loop)
+    walk(list(tree), fl, False)
+    return out
+
 def embed_dfa(n: NFA, d: DFA, cur):
     base = {}
     for s in range(d.nstates):
